@@ -1,6 +1,7 @@
 import Verif.Proofs.Move
 import Verif.Proofs.MoveModel
 import Verif.Proofs.RetargetModel
+import Verif.Proofs.InlineModel
 
 /-!
 # C01 — the naming move of Flatten preserves the meaning of the API (proved for all documents)
@@ -97,6 +98,36 @@ theorem retarget_preserves_meaning (d d' : J) (key v' : String) (h : Replace.upd
         unfold (Proofs.RetargetModel.bundleWith d' T rest) hops n p :=
   Proofs.RetargetModel.updateRef_retarget_preserves d d' key v' h T rest a1 hget hv1 hv2 q0 q' ht1 ht2 hreach hcanon hkeys
     hgoodT hops had
+
+/-- **The third kind of rewrite: in-place expansion.**  `flattenAnonPointer` (for a simple schema with a single caller)
+    and `stripOAIGenForRef` call `UpdateRefWithSchema(k, sch)` where `sch` is the schema the `$ref` at `k` leads to.  For
+    every document: if `sch` is the (non-`$ref`, object) node at a position `e` of the root that lies at the end of the
+    chain of `$ref`s starting at the old target of `k`, then after `Replace.updateRefWithSchema d key sch` every good
+    position (canonically spelled, not at or below `k`; every position of auxiliary documents) and `k` itself denote the
+    same tree as before, and `k ++ t` denotes what `e ++ t` denoted.  Same standing hypotheses as
+    `retarget_preserves_meaning` (canonical keys, no `$ref` designates a position strictly below `k`, adequate hop
+    bound).  Nothing is assumed about `e` and `k` being apart: when `k` lies inside `e` the statement still holds for
+    the JSON documents (the cyclic *Go* structure that such a copy builds is the matter of finding-then-fix 3893d90). -/
+theorem inline_preserves_meaning (d d' : J) (key : String) (sch : J)
+    (h : Replace.updateRefWithSchema d key sch = .ok d')
+    (T : List (String × Pos)) (rest : Bundle) (a1 : J)
+    (hget : Spec.Pointer.get d (Replace.keyTokens key) = some a1) (hv1 : Doc.refStr a1 ≠ "")
+    (etoks : List String) (hsch : Spec.Pointer.get d etoks = some sch) (hobj : ∃ m, sch = .obj m)
+    (hne : Doc.refStr sch = "")
+    (q0 : Pos) (ht1 : T.lookup (Doc.refStr a1) = some q0)
+    (hreach : Proofs.Retarget.Reaches (Proofs.RetargetModel.bundleWith d T rest) q0 ("", etoks))
+    (hcanon : AllCanon (Replace.keyTokens key)) (hkeys : keysCanon d = true)
+    (hgoodT : ∀ doc s q, (Proofs.RetargetModel.bundleWith d T rest).target doc s = some q →
+      Proofs.InlineModel.GoodI (Replace.keyTokens key) q ∨ q = ("", Replace.keyTokens key))
+    (hops : Nat) (had : Proofs.Retarget.RSetting.Adequate (Proofs.RetargetModel.bundleWith d T rest) hops)
+    (hpos : 0 < hops) :
+    (∀ n p, Proofs.InlineModel.GoodI (Replace.keyTokens key) p ∨ p = ("", Replace.keyTokens key) →
+      unfold (Proofs.RetargetModel.bundleWith d T rest) hops n p =
+        unfold (Proofs.RetargetModel.bundleWith d' T rest) hops n p) ∧
+    (∀ n t, unfold (Proofs.RetargetModel.bundleWith d T rest) hops n ("", etoks ++ t) =
+      unfold (Proofs.RetargetModel.bundleWith d' T rest) hops n ("", Replace.keyTokens key ++ t)) :=
+  Proofs.InlineModel.updateRefWithSchema_inline_preserves d d' key sch h T rest a1 hget hv1 etoks hsch hobj hne q0 ht1
+    hreach hcanon hkeys hgoodT hops had hpos
 
 /-- `replace.RewriteSchemaToRef` (model) is the `setAt` of the setting: what the move theorem calls
     "leave a `$ref` node at `toks`" is what the primitive does -/
